@@ -417,7 +417,7 @@ def main():
         hit = caught.get(cn[0], False)
         run.canaries.append(dict(name=cn[0], detected=hit))
         if not hit:
-            run.inconc('canary not detected: %s' % cn[0])
+            run.canary_miss(cn[0], caught)
     numenv.enable(extra_modules=[(adv, None)])
     run.stubs = sorted(set(numenv.STUBS)) + ['per-slice advection kernels (step methods, parallel_gradient, 2-D interpolation): recorders / uninterpreted functions of their numerical parameters',
                                              'exp/tanh/sqrt/cos uninterpreted in the initialisers']
